@@ -41,6 +41,13 @@ func (c *connection) onHup(p Poll) error {
 	onRequest := c.onRequestCallback.Load()
 	needCloseByUser := onConnect == nil && onRequest == nil
 	if !needCloseByUser {
+		// buffered input must still be offered to OnRequest before the close callbacks run:
+		// the processing task does that and then runs closeCallback itself, since closing != 0.
+		if req, _ := onRequest.(OnRequest); req != nil && c.inputBuffer.Len() > 0 &&
+			(onConnect == nil || c.getState() != connStateNone) {
+			c.onProcess(nil, req)
+			return nil
+		}
 		// already PollDetach when call OnHup
 		c.closeCallback(true, false)
 	}
